@@ -182,7 +182,8 @@ def check(R):
             gr = R.body('transport::session::Sessions::get_or_create_for_group_rx')
             from common import named_local, agg_flowing_to
             gk = named_local(gr, 'group_key_found')
-            okor = [t for t in gr.calls('core::option::Option::ok_or') if (op_place(t.d['a'][0]) or [None])[0] in gk]
+            from C04 import _locals_of
+            okor = [t for t in gr.calls('core::option::Option::ok_or') if any(x in gk for x in _locals_of(prims, gr, t.d['a'][0]))]
             R.floor('group_key_found.ok_or(..)', len(okor), 1)
             R.cut('P2', gr, 'touch the per-sender group counter state', call_bbs(gr, 'transport::dedup::GroupCtrStore::post_recv'), 'an operational group key authenticated the message (group_key_found is Some)',
                   lambda: R.call_guard(gr, 'core::option::Option::ok_or', pick=lambda t: t.bb in {o.bb for o in okor}))
